@@ -437,6 +437,11 @@ class Interp:
                         return (variant(vn), env)
                     return (mk("struct", c.get("parent", vn), ()), env)
                 return (mk("ctor", c.get("path", ""), dk), env)
+            if dk == "ConstParam":
+                nm = c.get("path", "").split("::")[-1]
+                if nm in fr.tysub:
+                    return (fr.tysub[nm], env)
+                return (mk("constparam", nm), env)
             if dk.startswith("Const") or dk.startswith("AssocConst"):
                 path = (c.get("inst") or {}).get("path") or c.get("path")
                 path = self.resolve_generic_const(c, fr) or path
